@@ -101,6 +101,10 @@ def rand_body_node(rng, ids, depth, dep_p=0.25):
     if r < dep_p:
         return rand_dep(rng, ids)
     if r < dep_p + 0.08:
+        if rng.random() < 0.5:
+            # snippets that differ only in surrounding / inner whitespace or letter case are different content
+            base_ = "<style>s%d{}</style>" % rng.randint(1, 2)
+            return {"k": "headc", "c": [{"k": "html", "s": rng.choice([base_, base_ + " ", " " + base_, "\n" + base_ + "\n", base_.upper(), base_.replace("{", " {"), base_ + "\n"])}]}
         return {"k": "headc", "c": [gen.TAG("title", {"k": "text", "s": "hc%d" % rng.randint(1, 3)})]}
     if depth <= 0 or r < 0.55:
         return lg.leaf(rng.choice(["text", "text", "html", "obj", "meta"]), ids)
@@ -182,7 +186,12 @@ def rand_case(rng, nested=False):
         content = content[: body_i + 1]
     else:
         late_sibs = []
-    return {"shape": shape, "content": content, "json_mode": rng.random() < 0.1, "prior_document": rng.choice([0, 0, 0, 1, 2]), "late": late_pair + late_sibs + [rand_body_node(rng, ids, 1) for _ in range(n_late)], "kw": kw,
+    grow = None
+    if rng.random() < 0.2:
+        cand = [i for i, c in enumerate(content) if c["k"] == "tag" and c["name"] not in ("script", "style", "head", "html", "title") and c["name"] not in gen.VOID]
+        if cand:
+            grow = {"at": rng.choice(cand), "dep": rand_dep(rng, ids), "render_first": rng.random() < 0.5}
+    return {"shape": shape, "content": content, "json_mode": rng.random() < 0.1, "prior_document": rng.choice([0, 0, 0, 1, 2]), "grow": grow, "late": late_pair + late_sibs + [rand_body_node(rng, ids, 1) for _ in range(n_late)], "kw": kw,
             "lib_prefix": rng.choice(["lib", "lib", None, "", "a/b", "/", "//", "lib/", "/static", "//cdn.example/x", ".", "../up", "with space"]), "include_version": rng.random() < 0.7, "late_together": rng.random() < 0.5}
 
 
@@ -212,6 +221,20 @@ def check_case(ctx, case):
             prior.render(lib_prefix="other", include_version=False)
         ctx.count("prior_documents")
     doc = ht.HTMLDocument(*nodes, **kw)
+    grow = case.get("grow")
+    if grow is not None and grow["at"] < len(nodes) and isinstance(nodes[grow["at"]], ht.Tag):
+        # the user keeps building on an element AFTER it was handed to the document: the document shows the element as it is when
+        # it is rendered (markup and dependencies alike)
+        import copy as _copy
+
+        if grow.get("render_first"):
+            doc.render()
+        nodes[grow["at"]].append("grown after hand-over", gen.build(strip_marks(grow["dep"])))
+        case = dict(case, content=_copy.deepcopy(case["content"]))
+        target_ = case["content"][grow["at"]]
+        target_["c"] = gen.flat_children(target_) + [{"k": "text", "s": "grown after hand-over"}, grow["dep"]]
+        content = strip_marks(case["content"])
+        ctx.count("documents_whose_content_grew_after_hand_over")
     if late and case.get("render_before_append", True):
         doc.render()  # an earlier rendering must not influence the one after append()
     if case.get("late_together") and late:
@@ -233,6 +256,17 @@ def check_case(ctx, case):
     else:
         out = doc.render(lib_prefix=case["lib_prefix"], include_version=case["include_version"])
     ctx.count("oracle.assembly")
+    # head_content() items: same rendered content <=> same name (decided here from the payload recipes, not from the names)
+    by_name, by_content = {}, {}
+    for c_ in content + late:
+        for x_ in gen.walk(c_):
+            if x_["k"] == "headc":
+                markup = ht.TagList(*[gen.build(p_) for p_ in x_["c"]]).get_html_string()
+                nm = gen.build(x_).name
+                ctx.count("oracle.head_content_names")
+                if by_name.setdefault(nm, markup) != markup or by_content.setdefault(markup, nm) != nm:
+                    ctx.violation("head-content-names", "head_content() names are not one-to-one with the rendered content: %r is named %s" % (markup[:60], nm), wit)
+                    return False
     nested = has_nested_dep(case)
 
     def viol(key, what, w):
